@@ -74,4 +74,13 @@ ASSUMPTIONS = {
         "encode_kmer is checked at length 5 only (its all-length statement is the Verus pack lemma); decode_kmer / skalo_decode_kmer (String code) unverified",
         "the Kani rollstep harnesses on the generic SplitKmer<IntT> are complete per k only (quick: k = 5 both widths; thorough adds 7, 15, 31, 33, 63)",
     ],
+    "C20": KMER_COMMON + [
+        "NOT decided, no contract within reach: grad_ll == gradient of log_likelihood, log_likelihood == the two-Poisson mixture (ln / exp / lgamma have no semantics in Verus or CBMC), the BFGS optimiser (argmin), convergence",
+        "BOUNDED: record loop of CoverageHistogram::new on three concrete reads of 7 bases at k = 5 (symbolic strand mode and quality bytes); histogram truncation on tables of length 4; find_cutoff for max_cutoff <= 4",
+        "R3 by name resolution in the harness module: hashbrown::HashMap -> association list with entry / and_modify / or_insert; the needletail record -> a stand-in with seq() / num_bases() / qual()",
+        "find_cutoff is run with a() and b() replaced by arbitrary finite tables indexed by the count (Kani stubs): what is checked is the search, not the densities; finite values only (inf - inf is NaN)",
+        "histogram step: counts are >= 1 (every key of the dictionary was inserted with 1) and a bin holds fewer than u32::MAX k-mers (preconditions)",
+        "unverified glue: the loops over the two FASTQ files and their records (needletail), `for kmer_count in self.kmer_dict.values()` (hashbrown iteration: each key once), that fit_histogram passes counts.len() as the cap and stores the result, the first two columns printed by plot_hist",
+        "floating point in find_cutoff compared under CBMC's IEEE-754 model",
+    ],
 }
